@@ -18,6 +18,11 @@ NAMES = [b"Host", b"host", b"HOST", b"Content-Length", b"content-length", b"X-A"
 VALUES = [b"1", b"abc", b"", b"a, b", b"a:b", b" padded ", b"\tx\t", b"x" * 30, b"\xff\x00z", b"a\rb", b"a\nb", b"0", b"17"]
 
 
+# request headers that mean something to HTTP servers in general (this library gives them no meaning)
+SPECIAL_LINES = [b"Expect: 100-continue", b"expect: 100-Continue", b"Connection: close", b"Connection: keep-alive",
+                 b"Transfer-Encoding: chunked", b"Upgrade: h2c", b"Connection: Upgrade", b"TE: trailers", b"Expect: 100-continue"]
+
+
 def pick(rng, l):
     return l[rng.randrange(len(l))]
 
@@ -47,6 +52,8 @@ def header_lines(rng, cl=None, malformed=False, nmax=5):
         pad1 = pick(rng, [b"", b"", b" ", b"  ", b"\t"])
         pad2 = pick(rng, [b"", b" ", b" ", b"  "])
         ls.append(pad1 + n + pad1 + b":" + pad2 + v + pick(rng, [b"", b"", b" "]))
+    if rng.random() < 0.15:
+        ls.insert(rng.randrange(len(ls) + 1), pick(rng, SPECIAL_LINES))
     if cl is not None:
         name = pick(rng, [b"Content-Length", b"content-length", b"CONTENT-LENGTH", b"Content-length"])
         ls.insert(rng.randrange(len(ls) + 1), name + b":" + pick(rng, [b" ", b"", b"  "]) + cl)
@@ -304,7 +311,11 @@ def gen_C18(rng, count, tier):
     while n < count:
         n += 1
         ops = api_history(rng, allow_multi=False)
-        evs = ["new"] + ops
+        evs = ["new"]
+        if rng.random() < 0.4:
+            # the response answers a request that was received first
+            evs += [feeds([valid_head(rng) + b"\r\n\r\n"]), "turn"]
+        evs += ops
         if rng.random() < 0.5:
             evs.append("wh")
         for _ in range(rng.randrange(1, 5)):
@@ -342,14 +353,22 @@ def gen_C19(rng, count, tier):
             marks.append(o)
         segs = cuts(rng, stream, marks=tuple(marks))
         behaviour = pick(rng, ["@hp write:%s close @end" % hx(b"hello"), "@hp err:404:~ @end", "@hp wh @end @rcf write:%s close @end" % hx(b"ok"),
-                               "", "@hp write:%s @end" % hx(b"partial"), "@hp redir:%s:0 @end" % hx(b"/n")])
+                               "", "@hp write:%s @end" % hx(b"partial"), "@hp redir:%s:0 @end" % hx(b"/n"),
+                               # API calls issued after the close, inside the same notification
+                               "@hp err:403:~ wh write:%s close @end" % hx(b"more"),
+                               "@hp write:%s close write:%s wh err:500:~ close @end" % (hx(b"hello"), hx(b"more")),
+                               "@hp redir:%s:1 redir:%s:0 json:%s:200 @end" % (hx(b"/n"), hx(b"/m"), hx(b"{}")),
+                               "@hp close wh write:%s @end" % hx(b"x")])
         evs = ["feed:" + hx(s) for s in segs]
         if behaviour == "" or rng.random() < 0.3:
             evs.insert(rng.randrange(len(evs) + 1), pick(rng, ["write:%s close" % hx(b"idle"), "close", "err:500:~"]))
         for _ in range(rng.randrange(0, 4)):
             evs.append(pick(rng, ["write:" + hx(b"after"), "wh", "err:500:~", "close", "ack:5", "feed:" + hx(b"GET /late HTTP/1.1\r\n\r\n"), "peerclose", "turn"]))
         evs.append("ackall")
-        yield ("sock", " ".join(x for x in [behaviour, "new"] + evs if x))
+        line = " ".join(x for x in [behaviour, "new"] + evs if x)
+        # the application records each point at which it has closed the socket (observed on both sides)
+        line = " ".join(t + " mark" if t == "close" or t.split(":")[0] in ("err", "redir", "json") else t for t in line.split())
+        yield ("sock", line)
 
 
 # ------------------------------------------------------------------------------------ accounting
@@ -499,6 +518,8 @@ def gen_route(rng, count, accept_p):
             toks.append("late")          # handler installed after the connection was accepted
         elif r < 0.16:
             toks.append("unsetlate")     # handler removed after the connection was accepted
+        if rng.random() < 0.3:
+            toks.append("soft")          # refusing middleware write their own response and do not close
         yield ("route", " ".join(toks))
 
 
@@ -527,9 +548,16 @@ def gen_C09(rng, count, tier):
                 u = u.replace(b":", b"")
             table.append((u, pick(rng, PASSES)))
         realm = pick(rng, [b"r", b"My Realm", b"", b"caf\xc3\xa9", b"a\"b"])
-        k = rng.randrange(16)
+        k = rng.randrange(20)
+        if table and rng.random() < 0.15:
+            # a long registered password: attempts that share a prefix and differ in length by 2^8, 2^9, 2^16
+            j = rng.randrange(len(table))
+            table[j] = (table[j][0], table[j][1] + bytes(97 + (q * 7) % 26 for q in range(pick(rng, [256, 300, 512, 520]))))
         u, p = (pick(rng, table) if table and rng.random() < 0.8 else (pick(rng, USERS), pick(rng, PASSES)))
         payload = u + b":" + p
+        if k == 16: payload = u + b":" + p + b"x" * pick(rng, [255, 256, 257, 512, 65536])   # same prefix, longer
+        elif k == 17 and len(p) > 256: payload = u + b":" + p[:len(p) - pick(rng, [256, 255, 512 if len(p) > 512 else 256])]
+        elif k == 18 and p: payload = u + b":" + p[:-1] + bytes([p[-1] ^ pick(rng, [1, 0x20, 0x80])])   # one bit off
         if k == 1: payload = u + b":" + p[:-1]                         # prefix password
         elif k == 2: payload = u + b":" + p.swapcase()
         elif k == 3: payload = u + b":"                                # empty password
@@ -935,6 +963,33 @@ def fuzz_api(rng):
 def gen_C11(rng, count, tier):
     # liveness over real sockets: a client that never reads a huge response must not stall the engine
     yield ("tls", "plain stall")
+    # every other component the statement names: response parser and relay (proxy), range parser,
+    # filesystem handler, slot handler, copier, connection teardown — their own scenario
+    # languages, run under the sanitizers; the model comparison is the one of the owning property
+    others = [gen_C12, gen_C13, gen_C07, gen_C08, gen_C15, gen_C14, gen_C16, gen_C10, gen_C17]
+    per = max(4, count // (3 * len(others)))
+    for g in others:
+        pool = list(g(rng, per * 3, tier))
+        for _ in range(min(per, len(pool))):
+            lang, toks = pool.pop(rng.randrange(len(pool)))
+            if lang == "proxy" and rng.random() < 0.4:
+                toks += " peerclose turn"        # the client leaves once everything has settled
+            yield (lang, toks)
+    for _ in range(per):
+        # arbitrary bytes from the upstream server
+        head, body = proxy_request(rng, with_body=False)
+        evs = ["new", "feed:" + hx(head + b"\r\n\r\n"), "turn"]
+        for _ in range(rng.randrange(1, 4)):
+            junk = pick(rng, [rand_bytes(rng, rng.randrange(0, 60)), b"\r\n\r\n", b"HTTP/1.1 200 OK\r\n", b"\x00" * 5, b"HTTP/1.1 \r\n\r\n", b" 200 \r\n\r\n"])
+            if junk:
+                evs += ["up:" + hx(junk), "turn"]
+        if rng.random() < 0.5:
+            evs += ["upclose", "turn"]
+        evs += ["ackall", "turn"]
+        if rng.random() < 0.3:
+            evs += ["peerclose", "turn"]
+        yield ("proxy", " ".join(evs))
+    count = max(1, count - per * (len(others) + 1))
     for i in range(count):
         react = []
         for sig in ("hp", "rr", "rcf", "bw", "dc"):
